@@ -137,6 +137,7 @@ package router
 //@   oncall go: nGo = nGo + 1
 //@   modifies obj(r.prefetch.queue)
 //@   ensures [C19:reserve-first] nRes == 1
+//@   callsite go: [C20:goroutine-gets-private-question] !captures(q)
 //@   ensures [C19:spawn-only-if-reserved] (nGo == 1) == okRes && nGo <= 1
 //@ func (c *cacheCtl) Get(ctx context.Context, q *dnsmsg.Question, rc *RequestContext) (m *dnsmsg.Msg, storedTime time.Time, expireTime time.Time)
 //@   trusted
